@@ -24,8 +24,8 @@ from harness.gen import a10_simplify as S
 
 PROP = "C15"
 DRIVERS = ["drv_c15"]
-RULE = ("one case = one generated square model with unique solution and one sampled option set (see C14); extra streams: constexpr, "
-        "delay, timealias, affineinit, iterparam (former findings, now regression inputs), iteraffine (open finding C15-F7); "
+RULE = ("one case = one generated square model with unique solution and one sampled option set (see C14); extra streams: delay, aliaschain (alias trees over a protected variable), constexpr, "
+        "timealias, affineinit, iterparam (former findings, now regression inputs), iteraffine (open finding C15-F7); "
         "non-trivial = the real simplify changed a variable list or the number of equations; distinct = distinct (model text, option set)")
 TRUSTED = ["CasADi: `ca.symvar`, construction of `ca.Function` (fails exactly on free symbols), `ca.substitute`",
            "the option-prefix method: `_simplify_once` with the later options switched off stops exactly before the pass under test"]
